@@ -25,6 +25,8 @@ from mitmproxy.test import taddons
 from mitmproxy.test import tflow
 from vf.core import exc_site
 from vf.core import short
+from vf.gen.c50_timeout import Hang
+from vf.gen.c50_timeout import guard
 from vf.ref import c50_dns as rdns
 from wsproto.frame_protocol import Opcode
 
@@ -403,7 +405,12 @@ def run(ctx):
             d.out_has_vt_codes = styled
             d.outfp = io.StringIO()
             try:
-                call_hook(d, kind, hook, f)
+                with guard():
+                    call_hook(d, kind, hook, f)
+            except Hang as h:
+                # a content view that never returns is C50's subject; here it only must not stall the run
+                ctx.count("hook_blocked")
+                ctx.seen("hook_exception_sites", f"Hang:{h.kind}@{next((x for x in h.frames if '/mitmproxy/' in x), '?').split('/mitmproxy/')[-1]}")
             except Exception as e:
                 # a crashing hook is not what C49 states (it is about the text written); recorded as evidence only
                 ctx.count("hook_raised")
